@@ -354,7 +354,12 @@ def make_producer(which, N, mode):
             elif which == "oneof":
                 g = OneOf(e1, e3, parse_mode=pm)
             elif which == "delimited":
-                g = Delimited(e1, allow_trailing=True)
+                opt = bool(fresh_bool(c, "optional_delimiter"))
+                from sqlfluff.core.parser.grammar.delimited import OptionallyDelimited
+                g = (OptionallyDelimited if opt else Delimited)(e1, allow_trailing=bool(fresh_bool(c, "allow_trailing")),
+                                                                 min_delimiters=int(fresh_int(c, "min_delimiters", 0, 1)))
+                if opt:
+                    c.witness("optional_delimiter")
             else:
                 g = Bracketed(e1, e2, parse_mode=pm)
             idx = fresh_int(c, "start_idx", 0, N - 1)  # callers never match at idx == len(segments)
